@@ -27,7 +27,12 @@ FSCirc(pc) == UNION { FSBox(pc.layers[k].g) : k \in 1..Len(pc.layers) }
 Closed(pc) == FSCirc(pc) = {}
 \* a closed parametrised circuit as a plain mixed circuit: rotations take their phase from the form,
 \* scalars their value c0/8 = c0 / sqrt2^6
+\* a square-root scalar sqrt(form) (gates.Sqrt) is an amplitude scalar; its ground value lies in the ring when the
+\* form's value c0/8 is a power of two:  sqrt(2^e / 8) = sqrt2^(e - 3)
+SqrtVal(c0) == CASE c0 = 1 -> <<1, 3>> [] c0 = 2 -> <<1, 2>> [] c0 = 4 -> <<1, 1>> [] c0 = 8 -> <<1, 0>>
+                 [] c0 = 16 -> <<2, 1>> [] c0 = 32 -> <<2, 0>>          \* <<re, s>> : re / sqrt2^s
 Ground(g) == IF g.par = 0 THEN g
+             ELSE IF g.k = "sqrt" THEN [g EXCEPT !.k = "scalar", !.re = SqrtVal(g.pf.c0)[1], !.im = 0, !.s = SqrtVal(g.pf.c0)[2]]
              ELSE IF g.k \in {"scalar", "mscalar"} THEN [g EXCEPT !.re = g.pf.c0, !.im = 0, !.s = 6]
              ELSE [g EXCEPT !.ph = g.pf.c0]
 GroundCirc(pc) == [ty |-> pc.ty, layers |-> [k \in 1..Len(pc.layers) |-> [pc.layers[k] EXCEPT !.g = Ground(pc.layers[k].g)]]]
